@@ -64,6 +64,7 @@ type tConn struct {
 	peerEnd  *sim.Conn // the peer's end (harness side)
 	dataEnd  *sim.Conn // client's data connection (harness side), once bound
 	gone     bool
+	foreignTried bool // a client or user other than the owner attempted to bind this id
 	orphan   bool // registered after its allocation was already gone (slow dial): lives until its own bind deadline
 	toPeer   []byte // bytes the client wrote after binding
 	toClient []byte
